@@ -1,6 +1,8 @@
 // ---------------------------------------------------------------------------------------------
-// derive(PartialOrd) on FixtureScope (assumption A5, discharged exhaustively by the Kani harness
-// scope_order_complete over all 25 pairs of the real enum)
+// `#[derive(PartialOrd)]` on FixtureScope (trusted base A5): the derived comparison orders the variants
+// by declaration order = `rank`.  This is the meaning Verus gives `a < b`, `a <= b`, ... on the real enum
+// (vstd's spec trait, implemented here because the type is local to the generated crate).  Discharged
+// separately by the exhaustive Kani harness over all 25 pairs of the real enum.
 impl vstd::std_specs::cmp::PartialOrdSpecImpl for FixtureScope {
     open spec fn obeys_partial_cmp_spec() -> bool { true }
     open spec fn partial_cmp_spec(&self, other: &FixtureScope) -> Option<core::cmp::Ordering> {
